@@ -153,6 +153,42 @@ def main():
                 R.violation("correspondence", "_check_dims(%r dims, shape %s, bindings %s, label %r): the function gives `%s`, the interpretation of the term generated from its source gives `%s`" % (
                     c["dim"], c["shape"], c["single"], c["label"], r["out"], m), {"case": c, "impl": r["out"], "interpreted_source": m}, key={"kind": "pyl-interpreter"}, no_input=True)
         R.coverage["check_dims_source_term_cases"] = len(keep)
+    # ---- the same for _MetaAbstractArray._check_shape (prefix / suffix / variadic axis, calling _check_dims)
+    ncs = 8000 if R.thorough else 700
+    cscases = []
+    for sess in sessions[len(CORPUS) // 2: len(CORPUS) // 2 + ncs * 2]:
+        for st in sess["steps"]:
+            if len(cscases) >= ncs:
+                break
+            toks = [t.split("=")[-1] for t in st["dim"].split()]
+            label = R.rng.choice([None, None, "(Leaf 0 in structure T) "])
+            single, variadic = {}, {}
+            for i, t in enumerate(toks):
+                nm = t.lstrip("#*_?")
+                if not nm.isidentifier() or R.rng.random() > .45:
+                    continue
+                key = (label + nm) if (label and "?" in t and R.rng.random() < .8) else nm
+                if "*" in t:
+                    variadic[key] = [R.rng.random() < .5, R.rng.choice([[], [1], [3], [2, 3], [1, 3], [2, 1], list(st["shape"][:2]), list(st["shape"][1:3])])]
+                else:
+                    single[key] = R.rng.choice([1, 2, 3, st["shape"][i] if i < len(st["shape"]) else 4])
+            shape = list(st["shape"]) if R.rng.random() < .85 else (list(st["shape"])[:-1] if st["shape"] and R.rng.random() < .5 else list(st["shape"]) + [2])
+            cscases.append({"dim": st["dim"], "shape": shape, "single": single, "variadic": variadic, "args": sess["args"], "label": label})
+    if cscases:
+        cso = vf.impl("impl_array.py", {"mode": "check_shape", "cases": cscases})["rows"]
+        keep = [(c, r) for c, r in zip(cscases, cso) if r.get("out", "").startswith(("ret", "raise"))]
+        zl = lambda l: vf.coqlist(l, vf.coqz)
+        sterms = ["(%s, %s, %s, %s, (mkmemo %s %s %s))" % (vf.coqopt(c["label"], vf.coqstr), G.symtab_coq(r.get("syms", [])), vf.coqstr(c["dim"]), zl(c["shape"]),
+                                                          vf.coqlist(list(c["single"].items()), lambda kv: "(%s, %s)" % (vf.coqstr(kv[0]), vf.coqz(kv[1]))),
+                                                          vf.coqlist(list(c["variadic"].items()), lambda kv: "(%s, (%s, %s))" % (vf.coqstr(kv[0]), vf.coqbool(kv[1][0]), zl(kv[1][1]))),
+                                                          vf.coqlist(sorted(c["args"].items()), lambda kv: "(%s, %s)" % (vf.coqstr(kv[0]), vf.coqz(kv[1])))) for c, r in keep]
+        sm_ = vf.coq_eval_strings(["model.PyLRun"], "fun c => let '(lbl, st, d, sh, m) := c in run_shape_src lbl st d sh m", sterms, shard=400)
+        for (c, r), mo in zip(keep, sm_):
+            R.count("check_shape_src:" + r["out"].split(" ")[0])
+            if r["out"] != mo:
+                R.violation("correspondence", "_check_shape(%r, shape %s, bindings %s %s, label %r): the method gives `%s`, the interpretation of the term generated from its source gives `%s`" % (
+                    c["dim"], c["shape"], c["single"], c["variadic"], c["label"], r["out"], mo), {"case": c, "impl": r["out"], "interpreted_source": mo}, key={"kind": "pyl-interpreter-shape"}, no_input=True)
+        R.coverage["check_shape_source_term_cases"] = len(keep)
     if not proved:
         R.violation("proof", "proof obligations of props/C01.v no longer check: " + str(R.broken_proof)[-800:],
                     {"theorem_file": "coq/props/C01.v", "log": R.broken_proof}, no_input=not any(v["kind"] == "property" for v in R.violations))
